@@ -580,3 +580,85 @@ def stack_trace_flag_only_feeds_messages():
                 bad.append((rel, node.lineno, ast.unparse(parents.get(node, node))[:80]))
     return [{"name": "structural::C16::stack_trace_only_in_messages", "ok": not bad and n > 0, "info": stack_trace_flag_only_feeds_messages.__doc__,
              "detail": f"{n} reads of the flag; not message-only: {bad}"}]
+
+
+# ------------------------------------------------------------------------------------------------ C20: extensions are inert unless enabled
+def _guarded_by(tree, node, flag: str, parents) -> bool:
+    """node lies in the body of an `if` / the true-branch of an `a if flag else b` whose test mentions `flag` positively, or its
+    function returns early under `not flag` before reaching it"""
+    cur = node
+    while cur in parents:
+        par = parents[cur]
+        if isinstance(par, ast.If) and flag in ast.unparse(par.test) and not ast.unparse(par.test).strip().startswith("not "):
+            if any(cur is b or cur in list(ast.walk(b)) for b in par.body):
+                return True
+        if isinstance(par, ast.IfExp) and flag in ast.unparse(par.test) and (cur is par.body or cur in list(ast.walk(par.body))):
+            return True
+        if isinstance(par, ast.FunctionDef):
+            # early return pattern: `if ... not <flag> ...: return` earlier in the same function
+            for stmt in par.body:
+                if getattr(stmt, "lineno", 10 ** 9) >= getattr(node, "lineno", 0):
+                    break
+                if isinstance(stmt, ast.If) and f"not {flag.split('.')[-1]}" in ast.unparse(stmt.test).replace("parser_properties.", "").replace("parse_properties.", "") \
+                        and any(isinstance(x, ast.Return) for x in stmt.body):
+                    return True
+            return False
+        cur = par
+    return False
+
+
+EXT_USES = [
+    ("MarkdownExtendedAutolinksExtension.", "is_extended_autolinks_enabled"),
+    ("PragmaExtension.look_for_pragmas", "is_pragmas_enabled"),
+    (".process_header_if_present", "is_front_matter_enabled"),
+    ("TaskListToken(", "is_task_lists_enabled"),
+    ("__strikethrough_emphasis", "is_strike_through_enabled"),
+]
+
+
+@check("C20")
+def extension_guards():
+    """every use of an extension's entry point in the parser (outside pymarkdown/extensions) is dominated by that extension's
+    enabled flag: with the flag off the parser cannot reach the extension's code, and the inline handler / emphasis tables contain
+    nothing of it"""
+    out = []
+    for rel, full in py_files():
+        if rel.startswith("pymarkdown/extensions/") or rel.startswith("pymarkdown/extension_manager/") or rel.startswith("pymarkdown/plugins/"):
+            continue
+        tree = parse(full)
+        parents = {}
+        for p_ in ast.walk(tree):
+            for ch in ast.iter_child_nodes(p_):
+                parents[ch] = p_
+        for node in ast.walk(tree):
+            if not isinstance(node, (ast.Call, ast.Attribute)):
+                continue
+            txt = ast.unparse(node)
+            for pat, flag in EXT_USES:
+                hit = (isinstance(node, ast.Call) and (ast.unparse(node.func) + "(").endswith(pat) if pat.endswith("(") else
+                       (isinstance(node, ast.Attribute) and txt.endswith(pat.rstrip(".")) if not pat.endswith(".") else
+                        isinstance(node, ast.Attribute) and txt.startswith(pat) and isinstance(node.value, ast.Name)))
+                if not hit:
+                    continue
+                if pat == "__strikethrough_emphasis" and isinstance(parents.get(node), (ast.Assign,)) and isinstance(node.ctx, ast.Store):
+                    continue
+                if pat == "__strikethrough_emphasis" and not isinstance(getattr(node, "ctx", None), ast.Load):
+                    continue
+                if pat == "__strikethrough_emphasis" and isinstance(parents.get(node), ast.Compare):
+                    continue  # comparing a delimiter that is already known to be in the (flag-built) emphasis alphabet
+                ok = _guarded_by(tree, node, flag, parents)
+                out.append({"name": f"structural::C20::guard[{rel}:{pat.strip('.(')}@{node.lineno}]", "ok": ok, "info": extension_guards.__doc__,
+                            "detail": f"{rel}:{node.lineno}: `{txt[:70]}` must be dominated by {flag}", "path": [f"{rel}:{node.lineno}"]})
+    return out
+
+
+@check("C20")
+def flags_are_copied():
+    """ParseBlockPassProperties takes its five flags unchanged from the extension manager (no flag is derived from anything else)"""
+    mi = front.load_module("pymarkdown/container_blocks/parse_block_pass_properties.py")
+    init = mi.classes["ParseBlockPassProperties"].methods["__init__"].node
+    src = ast.unparse(init)
+    want = ["extension_manager.is_front_matter_enabled", "extension_manager.is_linter_pragmas_enabled", "extension_manager.is_disallow_raw_html_enabled",
+            "extension_manager.is_task_list_items_enabled"]
+    missing = [w for w in want if w not in src]
+    return [{"name": "structural::C20::flags_copied", "ok": not missing, "info": flags_are_copied.__doc__, "detail": f"missing reads: {missing}"}]
